@@ -12,6 +12,7 @@ modes
                                                      the real _promote_branch_decls, with the iteration order of
                                                      `var_declared - base` dictated by the case
   sorted     {"lists": [[names]...]}                 CPython's sorted() on sets of names
+  mergeret   {"cases": [[[labels...], has_void]...]}  the real _merge_return_types (its set built under the dictated order, if any)
   threads    {"sources": [...], "threads": n, "rounds": r}
                                                      the sources transpiled concurrently by n threads -> per source the distinct results
   ops        {"sources": [...], "ops": [[op, i], ...], "texts": bool}
@@ -492,6 +493,16 @@ def main():
         out["results"] = [promote_case(c) for c in req["cases"]]
     elif mode == "helpers":
         out["results"] = run_helpers(req["sessions"])
+    elif mode == "mergeret":
+        res = []
+        for types, has_void in req["cases"]:
+            try:
+                res.append({"label": P._merge_return_types(list(types), bool(has_void))})
+            except ValueError:
+                res.append({"exc": "ValueError"})
+            except BaseException as e:  # noqa
+                res.append({"exc": type(e).__name__})
+        out["results"] = res
     elif mode == "sorted":
         out["results"] = [sorted(set(l)) for l in req["lists"]]
     else:
